@@ -93,7 +93,7 @@ func main() {
 // three keys).  States are deduplicated by (round-state digest, monitor lock).
 func soloDriver(run *core.Run, cov core.Coverage) {
 	// pass "deep": four rounds, narrow menus after round 0 (both tiers; completes in a minute or two)
-	soloPass(run, cov, true, "solo", run.Pick(150, 200))
+	soloPass(run, cov, true, "solo", 600) // safety net; completes in 1-2 minutes unless the machine is heavily loaded
 	if !run.Quick() {
 		// pass "wide": three rounds with the wide menus incl. late votes, then two narrow rounds, time-capped
 		soloPass(run, cov, false, "solo_wide", 420)
